@@ -74,12 +74,19 @@ MCInit ==
   /\ lastPost = [c \in Callers |-> -1]
   /\ minNext = [c \in Callers |-> 0]
   /\ hist = IF Record THEN << [a |-> "Init", ctx |-> ctxEnd, start |-> until, hc |-> hc] >> ELSE << >>
+  /\ callNo = [c \in Callers |-> 1]
+  /\ lastId = [c \in Callers |-> 0]
+  /\ sent = {} /\ retained = {}
+
+\* the exchanges of the process are numbered in the order the server answers them
+NextId == Cardinality(sent) + 1
 
 MCNext ==
-  \/ \E c \in Callers : CallerStep(c) \/ \E r \in RespChoices(c) : \E k \in Seen(hc, r.w, r.sp) : Post(c, r, k)
+  \/ \E c \in Callers : CallerStep(c) \/ \E r \in RespChoices(c) : \E k \in Seen(hc, r.w, r.sp) : Post(c, r, k, NextId)
   \/ Advance
 
-\* exhaustive check: the history does not distinguish states
+\* exhaustive check: the history (hist; the process history callNo, lastId, sent, retained, which the clauses of the
+\* retained-results layer are evaluated on at every transition) does not distinguish states
 StateView == <<hc, now, mult, notBefore, pc, ctxEnd, ctxDone, until, result, lastResp, n,
                lastPost, minNext, askUntil>>
 
@@ -93,6 +100,7 @@ Finish ==
   /\ hist' = Append(hist, End)
   /\ UNCHANGED <<hc, now, mult, notBefore, pc, ctxEnd, ctxDone, until, result, lastResp, n,
                  lastPost, minNext, askUntil>>
+  /\ UNCHANGED hvars
 SimResp(c) == IF n[c] >= MaxLen THEN TailResp
               ELSE IF n[c] = MaxLen - 1 /\ ctxEnd[c] = NoEnd
                      THEN Spelled(RandomElement({r \in SimSet : Ending(r)}))
@@ -102,7 +110,7 @@ SimNext ==
   \/ \E c \in Callers :
         \/ PostCtx(c) \/ Decide(c) \/ TimerFires(c) \/ CtxEnds(c) \/ CtxReturn(c)
         \/ \E j \in {RandomElement(0..(J - 1))} : StartWait(c, j)
-        \/ \E r \in {SimResp(c)} : \E k \in {RandomElement(Seen(hc, r.w, r.sp))} : Post(c, r, k)
+        \/ \E r \in {SimResp(c)} : \E k \in {RandomElement(Seen(hc, r.w, r.sp))} : Post(c, r, k, NextId)
   \/ Advance
   \/ Finish
 ExportFinished == (Record /\ Len(hist) > 1 /\ hist[Len(hist)].a = "End") =>
